@@ -366,3 +366,23 @@ def follow_chain_grammar(rng):
         chain.append(("X%d" % i, alts))
     prods += list(reversed(chain))
     return prods, gr_text(prods)
+
+
+def epsilon_chain_grammar(rng):
+    """Top-down written grammars whose nullability travels through a chain of pure-epsilon unit
+    rules (L: 'a' | M; M: N; N: O; O: EMPTY) that is longer than the terminal propagation, the
+    nullable symbol heading a rule that is used right after another nonterminal: FIRST (and with
+    it SLR FOLLOW and LR(1) closure lookaheads) needs one pass per link of the chain."""
+    depth = rng.randint(2, 4)
+    names = ["M", "N", "O", "P"][:depth]
+    prods = [("T0", [["'x'", "Y", "S"], ["'x'", "Z", "R"]] if rng.random() < 0.7 else
+              [["Y", "S"], ["'x'", "Z", "R"]]),
+             ("S", [["L", "R"]] if rng.random() < 0.7 else [["L", "R"], ["L", "'s'"]]),
+             ("L", [["'a'"], [names[0]]])]
+    for a, b in zip(names, names[1:]):
+        prods.append((a, [[b]]))
+    prods.append((names[-1], [[]]))
+    prods.append(("R", [["'r'"]] if rng.random() < 0.6 else [["'r'"], ["'r'", "R"]]))
+    prods.append(("Y", [["'y'"]]))
+    prods.append(("Z", [["'y'"]] if rng.random() < 0.5 else [["'z'"]]))
+    return prods, gr_text(prods)
